@@ -6,6 +6,7 @@ Open Scope N_scope.
 
 Inductive case :=
 | CondCase (ty cond : bytes) (out : option ptype)
+| CondBehav (ty cond : bytes) (accepted : bool) (thr : option N) (probes : list (strength * bool))
 | PolCheck (p : ptype) (z : strength) (out : bool)
 | PathCase (policy_ok acknowledged changed : bool)
 | StartCase (ty cond : bytes) (started : bool).
@@ -23,6 +24,13 @@ Definition ptype_eqb (a b : option ptype) : bool :=
 Definition agrees (c : case) : bool :=
   match c with
   | CondCase ty cond out => ptype_eqb (new_policy ty cond) out
+  | CondBehav ty cond accepted thr probes =>
+      match new_policy ty cond with
+      | None => negb accepted
+      | Some p =>
+          accepted && forallb (fun pr => Bool.eqb (policy_check p (fst pr)) (snd pr)) probes &&
+          match p, thr with PZxcvbn z, Some t => p_thr z =? t | _, _ => true end
+      end
   | PolCheck p z out => Bool.eqb (policy_check p z) out
   | PathCase _ _ _ => true
   | StartCase ty cond started => Bool.eqb (match new_policy ty cond with Some _ => true | None => false end) started
@@ -32,6 +40,13 @@ Definition agrees (c : case) : bool :=
 Definition spec_ok (c : case) : bool :=
   match c with
   | PathCase pol ack changed => pol || (negb ack && negb changed)
+  | CondBehav ty cond accepted _ probes =>
+      (* an unparsable condition is refused; an accepted one never lets a password through that the
+         condition, read by the grammar, refuses *)
+      match new_policy ty cond with
+      | None => negb accepted
+      | Some p => negb accepted || forallb (fun pr => negb (snd pr) || policy_check p (fst pr)) probes
+      end
   | StartCase ty cond started =>
       (* an unparsable configuration must stop the agent *)
       match ty with [] => true | _ => negb started || match new_policy ty cond with Some _ => true | None => false end end
